@@ -480,6 +480,17 @@ class Interp:
                     0 <= args[0].v < len(recv.meta["concrete_groups"]):
                 g = recv.meta["concrete_groups"][args[0].v]
                 return NONE if g is None else Str.lit(g)
+            if isinstance(recv, Unknown) and "pattern_text" in recv.meta and f.meta.get("attr") == "groups" and not args:
+                from . import rx as _rx
+                try:
+                    n = len(_rx.groups(_rx.parse(recv.meta["pattern_text"]), "cap"))
+                except AnalysisError:
+                    n = -1
+                if n >= 0:
+                    gf = Unknown(f"{recv.tag}.group", {"recv": recv, "attr": "group", "expr": f"{self.expr_of(recv)}.group"})
+                    return TupleV([Unknown(self.run.new_tag(f"{recv.tag}.group({i})"),
+                                           {"call_of": gf, "args": [IntV(i)], "kwargs": {},
+                                            "expr": f"{self.expr_of(recv)}.group({i})"}) for i in range(1, n + 1)])
             if isinstance(recv, Unknown) and "group0" in recv.meta and f.meta.get("attr") == "group" and \
                     (not args or (len(args) == 1 and isinstance(args[0], IntV) and args[0].v == 0)) and not kwargs:
                 return recv.meta["group0"]
@@ -501,9 +512,13 @@ class Interp:
         raise self.unsupported(f"call of {f!r}", node, fr)
 
     def call_func(self, func: FuncInfo, args: List[Value], kwargs: Dict[str, Value], self_val: Optional[Value],
-                  node: Optional[ast.AST], caller: Optional[Frame], closure: Optional[dict] = None) -> Value:
+                  node: Optional[ast.AST], caller: Optional[Frame], closure: Optional[dict] = None,
+                  skip_summary: bool = False) -> Value:
         qn = func.qualname
-        if qn in self.summaries:
+        ov = self.run.user.get("regex_override")
+        if ov and func.name == "get_regex" and isinstance(self_val, Obj) and self_val.oid in ov:
+            return ov[self_val.oid]
+        if qn in self.summaries and not skip_summary:
             r = self.summaries[qn](self, func, self_val, args, kwargs, node, caller)
             if r is not NotImplemented:
                 return r
@@ -589,7 +604,18 @@ class Interp:
             if r is not NotImplemented:
                 return r
         if cls.is_enum:
-            raise self.unsupported(f"enum lookup by value {cls.name}(...)", node, fr)
+            want = args[0] if args else NONE
+            unknown = False
+            for member in cls.attrs:
+                mv = self.get_attr(EnumV(cls, member), "value", node, fr)
+                r = self.try_equals(mv, want)
+                if r is True:
+                    return EnumV(cls, member)
+                if r is None:
+                    unknown = True
+            if unknown:
+                raise self.unsupported(f"enum lookup by abstract value {cls.name}({want!r})", node, fr)
+            self.raise_exc("ValueError", [Str.lit(f"not a valid {cls.name}")], node, fr)
         if cls.is_subclass_of("Exception") or cls.is_subclass_of("BaseException"):
             return ExcV(cls.name, args)
         obj = Obj(cls)
@@ -694,6 +720,9 @@ class Interp:
         if isinstance(v, Extern):
             return Extern(f"{v.name}.{name}", v.recv)
         if isinstance(v, Unknown):
+            stored = v.meta.get("$attrs", {})
+            if name in stored:
+                return stored[name]
             return Unknown(f"{v.tag}.{name}", {"recv": v, "attr": name, "expr": f"{self.expr_of(v)}.{name}"})
         if isinstance(v, ExcV):
             if name == "args":
@@ -723,6 +752,8 @@ class Interp:
                            func=(fr.func.qualname if fr and fr.func else ""))
             self.run.const_cache[("$classattr", target.cls.name + "." + name)] = value
             return
+        if isinstance(target, Unknown):
+            target.meta.setdefault("$attrs", {})[name] = value
         if isinstance(target, (Unknown, ClassV)):
             self.run.event("setattr_unknown", target=target, attr=name, value=value, node=node,
                            func=(fr.func.qualname if fr and fr.func else ""))
@@ -904,7 +935,20 @@ class Interp:
         while True:
             c = self.eval(st.test, fr)
             if not self.is_concrete(c) and not isinstance(c, BoolV):
-                raise self.unsupported("while loop on abstract condition", st, fr)
+                # a loop on abstract data: follow at most two iterations, then leave it (recorded)
+                if n >= 2:
+                    self.run.event("while_abstracted", node=st, func=fr.func.qualname if fr.func else "")
+                    break
+                if not self.truth(c, self.up(st.test) + f" [iteration {n + 1}]") :
+                    break
+                n += 1
+                try:
+                    self.exec_block(st.body, fr)
+                except ContinueEx:
+                    continue
+                except BreakEx:
+                    break
+                continue
             if not self.truth(c):
                 break
             n += 1
@@ -1081,6 +1125,14 @@ class Interp:
         return result
 
     def ex_List(self, e: ast.List, fr: Frame) -> Value:
+        stars = [x for x in e.elts if isinstance(x, ast.Starred)]
+        if len(stars) == 1 and e.elts[-1] is stars[0]:
+            v = self.eval(stars[0].value, fr)
+            if isinstance(v, ListV) and v.absorbed is not None:
+                v = v.absorbed
+            if isinstance(v, AbsList):
+                pre = self._elts(e.elts[:-1], fr)
+                return AbsList(v.elem, v.src, dict(v.flags, prefix_items=list(v.flags.get("prefix_items", [])) + pre, mixed=True))
         return ListV(self._elts(e.elts, fr))
 
     def ex_Tuple(self, e: ast.Tuple, fr: Frame) -> Value:
